@@ -63,6 +63,7 @@ func rowString(atoms []atomSpec, v map[string]string) string {
 // valuations) checked.
 func (c *Ctx) runTable(ts *tableSpec, fnLabel, pos string, paths []*Path) int {
 	rowsSeen := map[string]string{} // row -> outcome
+	armSeen := map[string]bool{}
 	rows := 0
 	c.paths += len(paths)
 	for i, pa := range paths {
@@ -131,6 +132,9 @@ func (c *Ctx) runTable(ts *tableSpec, fnLabel, pos string, paths []*Path) int {
 		}
 		if infeasible {
 			continue
+		}
+		for v := range allowed["arm"] {
+			armSeen[v] = true
 		}
 		outcome, oerr := ts.Outcome(pa)
 		if oerr != "" {
@@ -212,6 +216,57 @@ func (c *Ctx) runTable(ts *tableSpec, fnLabel, pos string, paths []*Path) int {
 		} else {
 			o := c.fail(ts.Rule, key, pos, firstBad)
 			o.PathDump = dumpPath(c.P, i, pa)
+		}
+	}
+	// completeness: a table only judges the paths that exist, so an arm of the reference that
+	// has no path at all (its select case was removed) must be reported separately
+	for _, a := range ts.Atoms {
+		if a.Name != "arm" || len(paths) == 0 {
+			continue
+		}
+		for _, d := range a.Dom {
+			if armSeen[d] {
+				continue
+			}
+			// is the arm part of the contract (some valuation with it has a required outcome)?
+			inContract := false
+			var enum func(k int, v map[string]string)
+			enum = func(k int, v map[string]string) {
+				if inContract {
+					return
+				}
+				if k == len(ts.Atoms) {
+					if exp := ts.Expected(v); exp != nil {
+						for _, e := range exp {
+							// an outcome spelled as one ALL-CAPS marker means "this arm must not exist"
+							if len(e) > 0 && !(len(e) == 1 && strings.ToUpper(e[0]) == e[0]) {
+								inContract = true
+							}
+						}
+					}
+					return
+				}
+				if ts.Atoms[k].Name == "arm" {
+					v["arm"] = d
+					enum(k+1, v)
+					return
+				}
+				for _, x := range ts.Atoms[k].Dom {
+					v[ts.Atoms[k].Name] = x
+					enum(k+1, v)
+				}
+			}
+			enum(0, map[string]string{})
+			if inContract {
+				c.fail(ts.Rule, fnLabel+"/arm["+d+"]/present", pos, "region "+ts.Region+": the reference has an arm `"+d+"` with required effects, but no path of the implementation takes it (the select case is gone or can never be chosen)")
+			} else {
+				continue
+			}
+		}
+		for _, d := range a.Dom {
+			if armSeen[d] {
+				c.ok(ts.Rule, fnLabel+"/arm["+d+"]/present", pos, "arm has at least one path")
+			}
 		}
 	}
 	return rows
